@@ -26,7 +26,12 @@ CLAMP = 1e6
 
 # ----------------------------------------------------------------------------- discrete ring
 class Ring:
-    """States 0..K-1 in one of four concrete representations (what the callbacks hand to the solver)."""
+    """States 0..K-1 in one of several concrete representations (what the callbacks hand to the solver).
+    int / tuple / list / cached are the structural ones; the others are unusual but legal VALUES of a generic solution
+    type T (round 3): falsy representatives of state 0 ("" / frozenset() / 0.0 / False), strings, frozensets, a pair whose
+    first entry is itself a state, equal-but-differently-typed numbers, and None as a state ("none0")."""
+
+    REPS = ("int", "tuple", "list", "cached", "str", "fset", "float", "nested", "bool01", "none0")
 
     def __init__(self, K: int, rep: str):
         self.K, self.rep = K, rep
@@ -34,17 +39,42 @@ class Ring:
 
     def mk(self, i: int):
         i %= self.K
-        if self.rep == "int":
+        rep = self.rep
+        if rep == "int":
             return i
-        if self.rep == "tuple":
+        if rep == "tuple":
             return (i,)
-        if self.rep == "list":
+        if rep == "list":
             return [i]  # fresh object every time
-        return self.cache[i]  # shared object
+        if rep == "cached":
+            return self.cache[i]  # shared object
+        if rep == "str":
+            return "" if i == 0 else f"s{i}"
+        if rep == "fset":
+            return frozenset() if i == 0 else frozenset({i})
+        if rep == "float":
+            return float(i)
+        if rep == "nested":
+            return (i, (i, "x"))
+        if rep == "bool01":
+            return bool(i) if i < 2 else i
+        if rep == "none0":
+            return None if i == 0 else i
+        raise ValueError(rep)
 
     @staticmethod
     def idx(s) -> int:
-        return s if isinstance(s, int) else s[0]
+        if s is None:
+            return 0
+        if isinstance(s, (bool, int)):
+            return int(s)
+        if isinstance(s, float):
+            return int(s)
+        if isinstance(s, str):
+            return int(s[1:]) if s else 0
+        if isinstance(s, frozenset):
+            return next(iter(s)) if s else 0
+        return Ring.idx(s[0])
 
 
 _M64 = (1 << 64) - 1
@@ -288,8 +318,10 @@ def gen_points(g, bounds):
 # ----------------------------------------------------------------------------- recording proxy
 def snap(x):
     """Immutable, JSON-friendly snapshot of a solution as it is *now*."""
-    if isinstance(x, (int, float)):
+    if x is None or isinstance(x, (int, float, str)):
         return x
+    if isinstance(x, frozenset):
+        return ["frozenset"] + sorted(x)
     return [snap(v) for v in x]
 
 
